@@ -165,6 +165,27 @@ theorem source_IndexByte_via_indexRuneCase (s : Bytes) (c : UInt8) (h : Heap) (h
   have := source_IndexByte s c h h (fun _ => C10.source_indexByte s 0 0 c h hls hCore)
   simpa using this
 
+/-- `CutPrefix`: given that `TrimPrefix` of the program returns the sub-slice `A.TrimPrefix` names, `CutPrefix` returns the
+    sub-slice and flag `A.CutPrefix` names (the comparison `len(ss) != len(s)` of the source is on the slice actually returned,
+    which is in range by `C06.slices_in_range`) -/
+theorem source_CutPrefix (s t : Bytes) (h h' : Heap)
+    (hCore : t ≠ [] → Ret Gen.Src.str false str_TrimPrefix [arg s 0, arg t 1] h [sub s (A.TrimPrefix scfg s t)] h') :
+    Ret Gen.Src.str false str_CutPrefix [arg s 0, arg t 1] h
+      [sub s (A.CutPrefix scfg s t).1, .bool (A.CutPrefix scfg s t).2] (if t = [] then h else h') := by
+  have hr : (A.TrimPrefix scfg s t).1 + (A.TrimPrefix scfg s t).2 ≤ s.length := (C06.slices_in_range scfg s t).1
+  have := Str.CutPrefix s t 0 0 1 0 h h' _ _ _ hCore
+  unfold A.CutPrefix
+  generalize A.TrimPrefix scfg s t = p at this hr ⊢
+  obtain ⟨a, b⟩ := p
+  have hlen : ((s.drop a).take b).length = b := by simp at hr ⊢; omega
+  dsimp only [sub] at this hr hlen ⊢
+  by_cases ht : t = []
+  · simp [ht] at this ⊢; exact this
+  · have hl : t.length ≠ 0 := fun e => ht (List.eq_nil_of_length_eq_zero e)
+    by_cases hb : b = s.length
+    · simp [ht, hl, hb] at this hlen ⊢; simpa [hlen] using this
+    · simp only [hlen] at this; simp [ht, hl, hb] at this ⊢; exact this
+
 end source
 
 section sourceB
@@ -294,6 +315,27 @@ theorem source_byt_containsKelvin (s : Bytes) (root off : Nat) (h : Heap)
     Ret Gen.Src.byt true byt_containsKelvin [.str s root off] h [.bool (A.containsKelvin bcfg s)] h := by
   have := Byt.containsKelvin s root off h _ _ hK hF
   simpa [A.containsKelvin, bne, int_beq] using this
+
+/-- `CutPrefix`: given that `TrimPrefix` of the program returns the sub-slice `A.TrimPrefix` names, `CutPrefix` returns the
+    sub-slice and flag `A.CutPrefix` names (the comparison `len(ss) != len(s)` of the source is on the slice actually returned,
+    which is in range by `C06.slices_in_range`) -/
+theorem source_byt_CutPrefix (s t : Bytes) (h h' : Heap)
+    (hCore : t ≠ [] → Ret Gen.Src.byt true byt_TrimPrefix [arg s 0, arg t 1] h [sub s (A.TrimPrefix bcfg s t)] h') :
+    Ret Gen.Src.byt true byt_CutPrefix [arg s 0, arg t 1] h
+      [sub s (A.CutPrefix bcfg s t).1, .bool (A.CutPrefix bcfg s t).2] (if t = [] then h else h') := by
+  have hr : (A.TrimPrefix bcfg s t).1 + (A.TrimPrefix bcfg s t).2 ≤ s.length := (C06.slices_in_range bcfg s t).1
+  have := Byt.CutPrefix s t 0 0 1 0 h h' _ _ _ hCore
+  unfold A.CutPrefix
+  generalize A.TrimPrefix bcfg s t = p at this hr ⊢
+  obtain ⟨a, b⟩ := p
+  have hlen : ((s.drop a).take b).length = b := by simp at hr ⊢; omega
+  dsimp only [sub] at this hr hlen ⊢
+  by_cases ht : t = []
+  · simp [ht] at this ⊢; exact this
+  · have hl : t.length ≠ 0 := fun e => ht (List.eq_nil_of_length_eq_zero e)
+    by_cases hb : b = s.length
+    · simp [ht, hl, hb] at this hlen ⊢; simpa [hlen] using this
+    · simp only [hlen] at this; simp [ht, hl, hb] at this ⊢; exact this
 
 end sourceB
 end C17
